@@ -1,29 +1,117 @@
 (** C04  Element-wise operations follow right-aligned broadcasting, or refuse.
 
-    Statements only; every proof is [exact <lemma>]. *)
+    Statements only; every proof is [exact <lemma>] (Proofs/BroadcastDims.v, Proofs/EwSpec.v).
+    [bcompat x y]: the dimensions, aligned from the last one, are pairwise equal or 1;
+    [bmax x y]: their pairwise maximum; [bclamp d I]: the index an operand of dimensions
+    [d] is read at for result index [I] (right-aligned, 0 along unit dimensions);
+    [get a I]: the row-major element.  [F] is any type of scalars. *)
 
-From Coq Require Import List Arith.
+From Coq Require Import List Arith ZArith.
 From Corgi Require Import Lib.OptionMonad Model.Scalar Model.Arr Model.SlicedOp Model.Elementwise
-     Proofs.ArrFacts Proofs.BroadcastDims.
+     Proofs.ArrFacts Proofs.BroadcastDims Proofs.SpecDefs Proofs.EwSpec.
 Import ListNotations.
 
-(** The result dimensions exist exactly for pairs whose dimensions, aligned from the last
-    one, are pairwise equal or 1, and are then the pairwise maximum. *)
+(** The result dimensions exist exactly for compatible pairs and are the pairwise maximum. *)
 Theorem C04_dimensions : forall x y d : list nat,
     element_wise_dimensions x y = Some d <-> (bcompat x y /\ d = bmax x y).
 Proof. exact element_wise_dimensions_spec. Qed.
 
-Theorem C04_dimensions_refuse : forall x y : list nat,
-    element_wise_dimensions x y = None <-> ~ bcompat x y.
-Proof. exact element_wise_dimensions_refuses. Qed.
+(** Every element-wise operation (any scalar function [f]) on compatible operands returns
+    the array of the pairwise-maximum dimensions whose element at each index is [f] of the
+    operands' elements at the broadcast-clamped index. *)
+Theorem C04_values : forall (F : Type) (O : ScalarOps F) (f : F -> F -> F) (a b : arr F),
+    wf a -> wf b -> dims a <> [] -> dims b <> [] -> bcompat (dims a) (dims b) ->
+    exists c, element_wise_op O f a b = Some c /\ wf c /\ dims c = bmax (dims a) (dims b) /\
+      forall I, in_range I (dims c) ->
+        exists x y, get a (bclamp (dims a) I) = Some x /\ get b (bclamp (dims b) I) = Some y /\
+                    get c I = Some (f x y).
+Proof. exact @element_wise_op_spec. Qed.
 
-Check C04_dimensions : forall x y d : list nat,
-    element_wise_dimensions x y = Some d <-> (bcompat x y /\ d = bmax x y).
+(** For any other pair of shapes the operation panics. *)
+Theorem C04_refuses : forall (F : Type) (O : ScalarOps F) (f : F -> F -> F) (a b : arr F),
+    ~ bcompat (dims a) (dims b) -> element_wise_op O f a b = None.
+Proof. exact @element_wise_op_refuses. Qed.
 
-Example C04_example_dims :
-  bcompat [2; 1; 3] [4; 1; 2; 1] /\ bmax [2; 1; 3] [4; 1; 2; 1] = [4; 2; 2; 3]
-  /\ ~ bcompat [2; 3] [3; 2].
-Proof. unfold bcompat, bmax; simpl. repeat split; auto. intros [[H|[H|H]] _]; discriminate. Qed.
+(** The five public operations: [+], [*], [/] are direct instances; [a - b] is computed as
+    [a + b * (-1)] and [axpy alpha x y] as [x * alpha + y] (non-BLAS build). *)
+Theorem C04_add : forall (F : Type) (O : ScalarOps F) (a b : arr F),
+    wf a -> wf b -> dims a <> [] -> dims b <> [] -> bcompat (dims a) (dims b) ->
+    exists c, a_add O a b = Some c /\ wf c /\ dims c = bmax (dims a) (dims b) /\
+      forall I, in_range I (dims c) ->
+        exists x y, get a (bclamp (dims a) I) = Some x /\ get b (bclamp (dims b) I) = Some y /\
+                    get c I = Some (fadd O x y).
+Proof. exact @a_add_spec. Qed.
+
+Theorem C04_mul : forall (F : Type) (O : ScalarOps F) (a b : arr F),
+    wf a -> wf b -> dims a <> [] -> dims b <> [] -> bcompat (dims a) (dims b) ->
+    exists c, a_mul O a b = Some c /\ wf c /\ dims c = bmax (dims a) (dims b) /\
+      forall I, in_range I (dims c) ->
+        exists x y, get a (bclamp (dims a) I) = Some x /\ get b (bclamp (dims b) I) = Some y /\
+                    get c I = Some (fmul O x y).
+Proof. exact @a_mul_spec. Qed.
+
+Theorem C04_div : forall (F : Type) (O : ScalarOps F) (a b : arr F),
+    wf a -> wf b -> dims a <> [] -> dims b <> [] -> bcompat (dims a) (dims b) ->
+    exists c, a_div O a b = Some c /\ wf c /\ dims c = bmax (dims a) (dims b) /\
+      forall I, in_range I (dims c) ->
+        exists x y, get a (bclamp (dims a) I) = Some x /\ get b (bclamp (dims b) I) = Some y /\
+                    get c I = Some (fdiv O x y).
+Proof. exact @a_div_spec. Qed.
+
+Theorem C04_sub : forall (F : Type) (O : ScalarOps F) (a b : arr F),
+    wf a -> wf b -> dims a <> [] -> dims b <> [] -> bcompat (dims a) (dims b) ->
+    exists c, a_sub O a b = Some c /\ wf c /\ dims c = bmax (dims a) (dims b) /\
+      forall I, in_range I (dims c) ->
+        exists x y, get a (bclamp (dims a) I) = Some x /\ get b (bclamp (dims b) I) = Some y /\
+                    get c I = Some (fadd O x (fmul O y (fneg O (f1 O)))).
+Proof. exact @a_sub_spec. Qed.
+
+Theorem C04_axpy : forall (F : Type) (O : ScalarOps F) (alpha : F) (x y : arr F),
+    wf x -> wf y -> dims x <> [] -> dims y <> [] -> bcompat (dims x) (dims y) ->
+    exists c, a_axpy O alpha x y = Some c /\ wf c /\ dims c = bmax (dims x) (dims y) /\
+      forall I, in_range I (dims c) ->
+        exists u v, get x (bclamp (dims x) I) = Some u /\ get y (bclamp (dims y) I) = Some v /\
+                    get c I = Some (fadd O (fmul O u alpha) v).
+Proof. exact @a_axpy_spec. Qed.
+
+Theorem C04_refuses_all : forall (F : Type) (O : ScalarOps F) (alpha : F) (a b : arr F),
+    ~ bcompat (dims a) (dims b) ->
+    a_add O a b = None /\ a_sub O a b = None /\ a_mul O a b = None /\ a_div O a b = None
+    /\ a_axpy O alpha a b = None.
+Proof.
+  intros F O alpha a b H.
+  exact (conj (a_add_refuses O a b H) (conj (a_sub_refuses O a b H) (conj (a_mul_refuses O a b H)
+        (conj (a_div_refuses O a b H) (a_axpy_refuses O alpha a b H))))).
+Qed.
+
+Check C04_values : forall (F : Type) (O : ScalarOps F) (f : F -> F -> F) (a b : arr F),
+    wf a -> wf b -> dims a <> [] -> dims b <> [] -> bcompat (dims a) (dims b) ->
+    exists c, element_wise_op O f a b = Some c /\ wf c /\ dims c = bmax (dims a) (dims b) /\
+      forall I, in_range I (dims c) ->
+        exists x y, get a (bclamp (dims a) I) = Some x /\ get b (bclamp (dims b) I) = Some y /\
+                    get c I = Some (f x y).
+Check C04_refuses : forall (F : Type) (O : ScalarOps F) (f : F -> F -> F) (a b : arr F),
+    ~ bcompat (dims a) (dims b) -> element_wise_op O f a b = None.
+
+(** Non-vacuity: concrete operands meet the hypotheses, and the computed result is the
+    broadcast one. *)
+Example C04_example :
+  let a := {| dims := [2; 1; 3]; vals := [1; 2; 3; 4; 5; 6]%Z |} in
+  let b := {| dims := [2; 1]; vals := [10; 20]%Z |} in
+  wf a /\ wf b /\ bcompat (dims a) (dims b) /\ bmax (dims a) (dims b) = [2; 2; 3]
+  /\ option_map (@vals Z) (a_add Z_ops a b) = Some [11; 12; 13; 21; 22; 23; 14; 15; 16; 24; 25; 26]%Z
+  /\ bclamp (dims b) [1; 1; 2] = [1; 0] /\ ~ bcompat [2; 3] [3; 2].
+Proof.
+  unfold wf, bcompat, bmax; simpl. repeat split; auto; try (repeat constructor; fail).
+  intros [[H|[H|H]] _]; discriminate.
+Qed.
 
 Print Assumptions C04_dimensions.
-Print Assumptions C04_dimensions_refuse.
+Print Assumptions C04_values.
+Print Assumptions C04_refuses.
+Print Assumptions C04_add.
+Print Assumptions C04_mul.
+Print Assumptions C04_div.
+Print Assumptions C04_sub.
+Print Assumptions C04_axpy.
+Print Assumptions C04_refuses_all.
